@@ -178,7 +178,58 @@ func (ff *fnFacts) At(b *ssa.BasicBlock) []condFact {
 			for _, nf := range normFact(iff.Cond, i == 0) {
 				nf.Origin = x
 				out = append(out, nf)
+				out = append(out, ff.throughBoolPhi(nf, 0)...)
 			}
+		}
+	}
+	return out
+}
+
+// throughBoolPhi: a branch on a merged boolean (the value form of `a || b`, `a && b`: constant on the edges that
+// short-circuit). Knowing the outcome rules out the constant edges that say otherwise; if one edge is left, control
+// came that way: the facts of that predecessor hold, and so does the edge's own value.
+func (ff *fnFacts) throughBoolPhi(f condFact, depth int) []condFact {
+	phi, ok := f.Cond.(*ssa.Phi)
+	if !ok || depth > 3 {
+		return nil
+	}
+	left := -1
+	for i, e := range phi.Edges {
+		if i >= len(phi.Block().Preds) || !ff.reach[phi.Block().Preds[i]] {
+			continue
+		}
+		if k, isK := constBool(e); isK && k != f.Val {
+			continue
+		}
+		if left >= 0 {
+			return nil
+		}
+		left = i
+	}
+	if left < 0 {
+		return nil
+	}
+	pred := phi.Block().Preds[left]
+	var out []condFact
+	for _, g := range ff.At(pred) {
+		out = append(out, g)
+	}
+	// the branch of pred that leads into the merge
+	if iff, ok := lastIf(pred); ok && len(pred.Succs) == 2 && pred.Succs[0] != pred.Succs[1] {
+		for i, sc := range pred.Succs {
+			if sc == phi.Block() && ff.feasible[pred][i] {
+				for _, nf := range normFact(iff.Cond, i == 0) {
+					nf.Origin = pred
+					out = append(out, nf)
+				}
+			}
+		}
+	}
+	if _, isK := phi.Edges[left].(*ssa.Const); !isK {
+		for _, nf := range normFact(phi.Edges[left], f.Val) {
+			nf.Origin = pred
+			out = append(out, nf)
+			out = append(out, ff.throughBoolPhi(nf, depth+1)...)
 		}
 	}
 	return out
